@@ -438,7 +438,9 @@ def writeAll (store : List Nat) (start : Nat) (d : Dims) (oshape : List Nat)
   (idxs oshape).foldl (fun st idx => st.set (start + offset d idx) (g idx)) store
 
 /-- `TensorBase::append` on a tensor whose `Vec` has capacity `max cap len`
-(`axis < ndim`; the harness does not generate other axes). -/
+(`axis < ndim`; the harness does not generate other axes).  Since fix `0049079`
+`expanded_layout` computes the new length with `checked_min_data_len`; in the ideal (`Nat`)
+arithmetic of this model that is `minDataLen`. -/
 def appendOp (t : TState) (axis cap : Nat) (oshape : List Nat) : Except Err TState := do
   let m ← materialize t
   let d := m.view.dims
